@@ -169,6 +169,7 @@ Proof.
   2:{ revert E1. unfold rd_s, of_option. destruct (unpack_s _ _ _); discriminate. }
   pose proof (rd_s_ok_bound _ _ _ _ _ E1 Hi ltac:(lia)) as Hb. change (Z.of_nat 2) with 2 in Hb.
   repeat (unfold rd_s at 1, of_option; destruct (unpack_s _ _ _); cbn [bind]; [|discriminate]).
+  destruct (_ <? _); [discriminate|].
   intros Hoof. apply bind_oof in Hoof. destruct Hoof as [Hoof|(x & _ & Hoof)]; [|discriminate].
   revert Hoof. apply IH; lia.
 Qed.
@@ -253,4 +254,54 @@ Proof.
     unfold rd_s at 1, of_option; destruct (unpack_s _ _ _); cbn [bind]; [|discriminate].
     unfold rd_s at 1, of_option; destruct (unpack_s _ _ _); cbn [bind]; [|discriminate].
     apply cmd_loop_not_oof; [lia|unfold zlen in *; lia].
+Qed.
+
+(* ---------- marker list: the names handed out are consecutive pieces of the input ---------- *)
+(* total size of the decoded names; with name offsets in order (checked by the parser since the repair of the
+   quadratic-output finding) it stays within three times the input length, however the offsets are chosen:
+   the pieces are consecutive, so their lengths telescope under the potential [phi] *)
+Definition names_total (ms : list (bytes * Z)) : Z := fold_right (fun m acc => zlen (fst m) + acc) 0 ms.
+
+Definition phi (len t : Z) : Z := norm_idx len t + (if t <? 0 then 0 else 2 * len).
+Lemma phi_range len t : 0 <= len -> 0 <= phi len t <= 3 * len.
+Proof. intros H. unfold phi, norm_idx. destruct (Z.ltb_spec t 0); lia. Qed.
+Lemma zlen_slice_phi (d : bytes) a b : a <= b -> zlen (slice d a b) <= phi (zlen d) b - phi (zlen d) a.
+Proof.
+  intros Hab. pose proof (zlen_nonneg d) as Hd. unfold slice, phi.
+  set (len := zlen d) in *.
+  assert (Hl : zlen (firstn (Z.to_nat (norm_idx len b - norm_idx len a)) (skipn (Z.to_nat (norm_idx len a)) d))
+               = Z.max 0 (Z.min (norm_idx len b - norm_idx len a) (len - norm_idx len a))).
+  { assert (Ha : 0 <= norm_idx len a <= len) by (unfold norm_idx; destruct (Z.ltb_spec a 0); lia).
+    unfold zlen at 1. rewrite firstn_length, skipn_length. fold (zlen d) in *.
+    unfold len, zlen in *. lia. }
+  rewrite Hl. unfold norm_idx. destruct (Z.ltb_spec a 0); destruct (Z.ltb_spec b 0); lia.
+Qed.
+
+Lemma vwlb_loop_total d mn : forall fuel n indx ms,
+  vwlb_loop fuel n d indx mn = Ok ms ->
+  ms = [] \/ exists s, rd_s 2 Big d (indx + 2) = Ok s /\ names_total ms + phi (zlen d) (mn + s) <= 3 * zlen d.
+Proof.
+  induction fuel as [|f IH]; intros n indx ms H; cbn [vwlb_loop] in H.
+  - destruct (n <=? 0); [injection H as <-; left; reflexivity | discriminate].
+  - destruct (n <=? 0); [injection H as <-; left; reflexivity|].
+    destruct (rd_s 2 Big d indx) as [frame| |]; cbn [bind] in H; try discriminate.
+    destruct (rd_s 2 Big d (indx + 2)) as [s| |] eqn:Es; cbn [bind] in H; try discriminate.
+    destruct (rd_s 2 Big d (indx + 6)) as [e| |] eqn:Ee; cbn [bind] in H; try discriminate.
+    destruct (Z.ltb_spec e s); [discriminate|].
+    destruct (vwlb_loop f (n - 1) d (indx + 4) mn) as [r| |] eqn:Er; cbn [bind] in H; try discriminate.
+    injection H as <-. right. exists s. split; [reflexivity|].
+    cbn [names_total fold_right fst]. fold (names_total r).
+    pose proof (zlen_slice_phi d (mn + s) (mn + e) ltac:(lia)) as Hn.
+    pose proof (phi_range (zlen d) (mn + e) (zlen_nonneg d)) as Hp.
+    destruct (IH _ _ _ Er) as [->|(s' & Es' & Hr)].
+    + cbn [names_total fold_right]. lia.
+    + replace (indx + 4 + 2) with (indx + 6) in Es' by lia. rewrite Ee in Es'. injection Es' as <-. lia.
+Qed.
+
+Theorem vwlb_output_bounded d ms : parse_vwlb_data d = Ok ms -> names_total ms <= 3 * zlen d.
+Proof.
+  unfold parse_vwlb_data. destruct (rd_s 2 Big d 0) as [n| |]; cbn [bind]; try discriminate.
+  intros H. pose proof (zlen_nonneg d).
+  destruct (vwlb_loop_total d _ _ _ _ _ H) as [->|(s & _ & Hs)]; [cbn [names_total fold_right]; lia|].
+  pose proof (phi_range (zlen d) (2 + 4 * (n + 1) + s) ltac:(lia)). lia.
 Qed.
